@@ -9,6 +9,8 @@ A case:  {'acts': {lid: act}, 'ops': [op, ...]}
      | ['resubmit', id, text, hascb]   -- a submission made from inside the result callback of the command that the
                                           preceding bytes op resolves (its last line is that command's final line); for
                                           the model and the spec this is the submission that follows those bytes
+     | ['relost', clean]               -- the connection is reported lost from inside that result callback (the caller hangs up in
+                                          reaction to the reply and the transport reports it at once): for the model, the loss that follows
      | ['nested', rid, op]             -- `op` (a submit or whendisc) made from inside the disconnect notification `rid`; it
                                           stands right after the op that causes that notification (the loss, or the
                                           `whendisc rid` itself when the connection is already gone)
@@ -38,10 +40,22 @@ def render_tl(tl):
     return '%03d %s' % (tl[1], tl[2])
 
 
+_DEBUG_DIR = []
+
+
+def debug_dir():
+    if not _DEBUG_DIR:
+        import atexit, shutil, tempfile
+        d = tempfile.mkdtemp(prefix='ctl-debuglog-')
+        _DEBUG_DIR.append(d)
+        atexit.register(shutil.rmtree, d, True)
+    return _DEBUG_DIR[0]
+
+
 class Impl:
     """the real protocol with recording doubles"""
 
-    def __init__(self, acts):
+    def __init__(self, acts, debug=False):
         from twisted.test import proto_helpers
         from txtorcon import TorControlProtocol
         self.log = []
@@ -64,6 +78,15 @@ class Impl:
                 self.log.append('write ' + hexs(line))
             return orig_write(data)
         self.tr.write = write
+        if debug:
+            # start_debug() opens ./txtorcon-debug.log
+            import os
+            here = os.getcwd()
+            os.chdir(debug_dir())
+            try:
+                self.proto.start_debug()
+            finally:
+                os.chdir(here)
         self.proto.makeConnection(self.tr)
         self.dead = False
         # bootstrap through the public path (NULL authentication)
@@ -121,7 +144,11 @@ class Impl:
             if self.armed is not None:
                 op, self.armed = self.armed, None
                 self.consumed = op
-                self.submit(op)
+                if op[0] == 'relost':
+                    self.log.append('#relost')
+                    self.lose(op[1])
+                else:
+                    self.submit(op)
 
         def ok(r):
             if r is None:
@@ -140,6 +167,11 @@ class Impl:
                 self.log.append('fail %d %s' % (cid, f.type.__name__))
             reenter()
         d.addCallbacks(ok, bad)
+
+    def lose(self, clean):
+        from twisted.python.failure import Failure
+        from twisted.internet.error import ConnectionDone, ConnectionLost
+        self.proto.connectionLost(Failure(ConnectionDone() if clean else ConnectionLost()))
 
     def submit(self, op):
         _, cid, text, hascb = op
@@ -182,9 +214,15 @@ class Impl:
                     self.consumed = None        # made inside the callback; its outputs are in the previous group
                 else:
                     self.submit(op)             # the callback did not run: an ordinary submission
+            elif k == 'relost':
+                if self.consumed is op:
+                    self.consumed = None
+                else:
+                    self.log.append('#relost')
+                    self.lose(op[1])
             elif k == 'bytes':
                 if not self.dead:
-                    self.armed = nxt if (nxt is not None and nxt[0] == 'resubmit') else None
+                    self.armed = nxt if (nxt is not None and nxt[0] in ('resubmit', 'relost')) else None
                     try:
                         self.proto.dataReceived(op[1].encode('latin-1'))
                     except Exception as e:
@@ -192,9 +230,10 @@ class Impl:
                         self.log.append('exc ' + type(e).__name__)
                     self.armed = None
             elif k == 'lost':
-                from twisted.python.failure import Failure
-                from twisted.internet.error import ConnectionDone, ConnectionLost
-                self.proto.connectionLost(Failure(ConnectionDone() if op[1] else ConnectionLost()))
+                # a command failed by the loss may be submitted again from its errback
+                self.armed = nxt if (nxt is not None and nxt[0] == 'resubmit') else None
+                self.lose(op[1])
+                self.armed = None
             elif k == 'whendisc':
                 self.whendisc(op)
             elif k == 'nested':
@@ -219,7 +258,7 @@ def fix_ev(outs, names_by_payload=None):
 
 def run_impl(case):
     from harness.common import watchdog, Hang
-    im = Impl(case.get('acts', {}))
+    im = Impl(case.get('acts', {}), debug=bool(case.get('debug')))
     groups = []
     for op in case['ops']:
         if op[0] == 'nested':
@@ -240,19 +279,31 @@ def canon(groups):
     out = []
     for kind, outs in groups:
         kind = 'rx' if kind in ('bytes', 'tl') else kind
-        if kind in ('resubmit', 'nested'):
-            # made from inside a callback: what it causes belongs to the group of the bytes before it
+        if kind in ('resubmit', 'nested', 'relost'):
+            # made from inside a callback: what it causes belongs to the group of the op before it
+            if kind == 'relost' and '#relost' not in outs and not (out and '#relost' in out[-1][1]):
+                outs = ['#relost'] + list(outs)
             if out:
                 out[-1][1].extend(outs)
                 continue
-            kind = 'submit'
+            kind = 'lost' if kind == 'relost' else 'submit'
         if kind == 'rx' and out and out[-1][0] == 'rx':
             out[-1][1].extend(outs)
         else:
             out.append([kind, list(outs)])
     for g in out:
         if g[0] == 'lost':
-            g[1].sort()
+            g[1] = sorted(x for x in g[1] if x != '#relost')
+        elif '#relost' in g[1]:
+            # a loss reported from inside a callback: as for a plain loss, its outputs are compared as a set
+            i = g[1].index('#relost')
+            head = g[1][:i]
+            if head and head[-1].startswith('write '):
+                # the model, which has no call stack, writes the next queued command between the result callback and the
+                # loss; in the implementation the loss came first and that command is failed unwritten — the same
+                # outcome for the command, and a write nobody could have received
+                head = head[:-1]
+            g[1] = head + sorted(x for x in g[1][i + 1:] if x != '#relost')
     return [g for g in out if not (g[0] == 'rx' and not g[1])]
 
 
@@ -268,7 +319,7 @@ def op_line(op):
         return 'submit %d %s %d' % (op[1], hexs(op[2]), 1 if op[3] else 0)
     if k == 'bytes':
         return 'bytes ' + hexs(op[1])
-    if k == 'lost':
+    if k in ('lost', 'relost'):
         return 'lost'
     if k == 'whendisc':
         return 'whendisc %d' % op[1]
@@ -380,7 +431,7 @@ def gen_event(rng, names):
     return tls
 
 
-def gen_session(rng, *, n_steps=30, events=False, listeners=False, loss=False, acts_kinds=('r',), max_cmds=10, reenter=False):
+def gen_session(rng, *, n_steps=30, events=False, listeners=False, loss=False, acts_kinds=('r',), max_cmds=10, reenter=False, debug=False):
     """generate one session adaptively against the real implementation; returns the recorded case"""
     n_l = rng.randint(1, 4) if listeners else 0
     names = EVENT_NAMES[:rng.randint(1, 3)] if (events or listeners) else []
@@ -392,7 +443,7 @@ def gen_session(rng, *, n_steps=30, events=False, listeners=False, loss=False, a
             acts[str(lid)] = [k]
         else:
             acts[str(lid)] = [k, rng.choice(names), rng.randint(1, n_l), next(ids)]
-    im = Impl(acts)
+    im = Impl(acts, debug=debug)
     ops, tls_by_op = [], {}
     stream = ''            # rendered bytes not yet delivered
     stream_tls = []        # (end offset in the undelivered stream, tl) per pending line
@@ -477,6 +528,8 @@ def gen_session(rng, *, n_steps=30, events=False, listeners=False, loss=False, a
               stream_tls = [(end - k, tl) for (end, tl) in stream_tls if end > k]
               tls_by_op[len(ops)] = done
               sub = ['resubmit', next(ids), rng.choice(['GETINFO version', 'SIGNAL NEWNYM', 'X']), rng.random() < 0.3]
+              if loss and rng.random() < 0.35:
+                  sub = ['relost', rng.random() < 0.5]         # the caller hangs up from inside the result callback
               ops.append(['bytes', chunk])
               from harness.common import watchdog, Hang
               try:
@@ -486,8 +539,14 @@ def gen_session(rng, *, n_steps=30, events=False, listeners=False, loss=False, a
                   raise GenAbort()
               written += sum(1 for o in outs if o.startswith('write '))
               if im.consumed is sub:
-                  n_sub += 1
-                  do(sub)
+                  if sub[0] == 'relost':
+                      lost = True
+                      do(sub)
+                      for rid, inner in waiting_nested:
+                          do(['nested', rid, inner])
+                  else:
+                      n_sub += 1
+                      do(sub)
           elif c == 'addl':
               name, lid = rng.choice(names), rng.randint(1, n_l)
               registered.append((name, lid))
@@ -500,7 +559,17 @@ def gen_session(rng, *, n_steps=30, events=False, listeners=False, loss=False, a
               do(['reml', name, lid, next(ids)])
           elif c == 'lost':
               lost = True
-              do(['lost', rng.random() < 0.5])
+              sub = ['resubmit', next(ids), rng.choice(SUBMIT_TEXTS), rng.random() < 0.3] if (reenter and rng.random() < 0.5) else None
+              ops.append(['lost', rng.random() < 0.5])
+              from harness.common import watchdog, Hang
+              try:
+                  with watchdog(5):
+                      im.do(ops[-1], sub)
+              except Hang:
+                  raise GenAbort()
+              if sub is not None and im.consumed is sub:
+                  # a command the loss failed is submitted again from its errback
+                  do(sub)
               for rid, inner in waiting_nested:
                   do(['nested', rid, inner])
           elif c == 'whendisc':
@@ -519,7 +588,7 @@ def gen_session(rng, *, n_steps=30, events=False, listeners=False, loss=False, a
                   else:
                       waiting_nested.append((rid, inner))
     except GenAbort:
-        return {'acts': acts, 'ops': ops, 'tls': {str(i): tls_by_op.get(i, []) for i, op in enumerate(ops) if op[0] == 'bytes'}}
+        return {'acts': acts, 'debug': debug, 'ops': ops, 'tls': {str(i): tls_by_op.get(i, []) for i, op in enumerate(ops) if op[0] == 'bytes'}}
     # drain what Tor already sent (unless the connection is gone)
     if stream and not lost and rng.random() < 0.8:
         tls_by_op[len(ops)] = [tl for (_e, tl) in stream_tls]
@@ -527,11 +596,11 @@ def gen_session(rng, *, n_steps=30, events=False, listeners=False, loss=False, a
             do(['bytes', stream])
         except GenAbort:
             pass
-    return {'acts': acts, 'ops': ops, 'tls': {str(i): tls_by_op.get(i, []) for i, op in enumerate(ops) if op[0] == 'bytes'}}
+    return {'acts': acts, 'debug': debug, 'ops': ops, 'tls': {str(i): tls_by_op.get(i, []) for i, op in enumerate(ops) if op[0] == 'bytes'}}
 
 
 def normalise_case(case):
     """JSON round trip turns int keys into strings; make `tls` indexable by op index"""
     tls = case.get('tls', {})
-    return {'acts': case.get('acts', {}), 'ops': case['ops'],
+    return {'acts': case.get('acts', {}), 'debug': bool(case.get('debug')), 'ops': case['ops'],
             'tls': {int(k): v for k, v in tls.items()}}
